@@ -31,7 +31,7 @@ ASSUMPTIONS = step.ASSUMPTIONS + [
     'obligations (meta-argument; premises machine-checked)',
     'the PUSH;POP and STMDB;LDMIA round-trip lemmas are proved over the two verified contracts with the abstract memory interpreted '
     'as a flat word memory without faults (word-aligned accesses, SP and PC not in the list)',
-    'data aborts in the middle of a block transfer: only "an aborting transfer changes no core register in that iteration" is proved; '
+    'data aborts in the middle of a block transfer: "an aborting transfer changes no core register in that iteration" and "an aborting PC-slot transfer happens before any write-back" are proved; '
     'the architectural base-restoration rule for aborted LDM/STM is not modelled by the implementation (no rollback)',
 ]
 
@@ -286,7 +286,7 @@ def make_units(name, iset):
         except PyRaise as e:
             if issubclass(e.exc.cls, m.arm_exceptions.DataAbortException):
                 fin = mach.read()
-                eng.oblige_all('inv.step', '%s: an aborting transfer changes no core register' % name,
+                eng.oblige_all('inv.abort', '%s: an aborting transfer changes no core register' % name,
                                [(k, values_eq(v, init[k])) for k, v in fin.items() if k.startswith('R.')])
                 return
             if kind in USERKINDS and issubclass(e.exc.cls, m.arm_exceptions.UndefinedInstructionException):
@@ -315,6 +315,11 @@ def make_units(name, iset):
             eng.call(K.execute, [op, mach.cpu])
         except PyRaise as e:
             if issubclass(e.exc.cls, m.arm_exceptions.DataAbortException):
+                # the transfer of the PC slot aborted: nothing after the loop - the base / SP write-back in particular - has
+                # happened before it ("the faulting instruction performs no base-register write-back")
+                fin = mach.read()
+                eng.oblige_all('inv.abort', '%s: an aborting transfer of the PC slot changes no core register (no write-back before it)' % name,
+                               [(k, values_eq(v, init[k])) for k, v in fin.items() if k.startswith('R.')])
                 return
             if kind in USERKINDS and issubclass(e.exc.cls, m.arm_exceptions.UndefinedInstructionException):
                 return                      # Hyp mode: decided in the head unit
@@ -395,9 +400,10 @@ def make_units(name, iset):
     opts = {'contracts': {}, 'max_paths': 20000, 'merge_calls': step.merge_set()}
     qn = '%s.%s.execute' % (K.__module__, name)
     props = ['C03', 'C12'] if kind == 'ldmeret' else ['C03']        # LDM (exception return) is one of the returns of C12
-    return [Unit('C03/exec:%s[%s]/head' % (name, iset), props, head, nreplay, dict(opts), meta={'function': qn, 'inductive': True}),
-            Unit('C03/exec:%s[%s]/step' % (name, iset), props, stepu, nreplay, dict(opts), meta={'function': qn, 'inductive': True}),
-            Unit('C03/exec:%s[%s]/tail' % (name, iset), props, tail, nreplay, dict(opts), meta={'function': qn, 'inductive': True})]
+    also = {'C14': ['inv.abort']}           # C14: a denied access at any position of a multi-word transfer - no write-back, no later transfer
+    return [Unit('C03/exec:%s[%s]/head' % (name, iset), props, head, nreplay, dict(opts), meta={'function': qn, 'inductive': True, 'also': also}),
+            Unit('C03/exec:%s[%s]/step' % (name, iset), props, stepu, nreplay, dict(opts), meta={'function': qn, 'inductive': True, 'also': also}),
+            Unit('C03/exec:%s[%s]/tail' % (name, iset), props, tail, nreplay, dict(opts), meta={'function': qn, 'inductive': True, 'also': also})]
 
 
 def block_replay(name, iset, inputs, ob):
